@@ -228,7 +228,7 @@ def run(ck, tier):
     rel = build("rel")
     asan = build("asan")
     sc = getattr(ck, "scale", 1.0)
-    nh = int((12 if tier == "quick" else 300) * sc)
+    nh = int((24 if tier == "quick" else 300) * sc)
     jobs = []
     for i in range(nh):
         if i % 3 == 2:
